@@ -181,7 +181,10 @@ def hidden_state_sites(model: SrcModel, fn: FuncDef) -> List[Tuple[str, ast.AST,
             for c in cands:
                 if isinstance(c, ast.Name) and is_module_var(c.id):
                     v = mutables.get(c.id)
-                    is_model_obj = isinstance(v, ast.Call) and isinstance(model.resolve_expr(mod, v.func), ClassDef)
+                    vc = model.resolve_expr(mod, v.func) if isinstance(v, ast.Call) else None
+                    immutable = isinstance(vc, ClassDef) and (model.is_enum(vc) or "typing.NamedTuple" in model.mro(vc.qualname) or any(
+                        "frozen=True" in norm(d) for d in vc.node.decorator_list))
+                    is_model_obj = isinstance(vc, ClassDef) and not immutable
                     if is_model_obj or isinstance(v, (ast.Dict, ast.List, ast.Set)):
                         out.append(("shared-escape", n, f"hands the module-level object '{c.id}' on ({norm(n, 70)}): one instance is shared by all results"))
         if isinstance(n, ast.Return) and isinstance(n.value, (ast.Subscript, ast.Attribute)) or \
@@ -192,6 +195,8 @@ def hidden_state_sites(model: SrcModel, fn: FuncDef) -> List[Tuple[str, ast.AST,
                 v = mutables.get(root)
                 holds_objects = isinstance(v, (ast.Dict, ast.List, ast.Tuple)) and any(
                     isinstance(x, ast.Call) and not isinstance(model.resolve_expr(mod, x.func), FuncDef) and (dotted(x.func) or "").split(".")[-1][:1].isupper()
+                    and not (isinstance(model.resolve_expr(mod, x.func), ClassDef) and (
+                        model.is_enum(model.resolve_expr(mod, x.func)) or "typing.NamedTuple" in model.mro(model.resolve_expr(mod, x.func).qualname)))
                     for x in ast.walk(v))
                 if holds_objects:
                     out.append(("shared-return", n, f"returns an object stored in the module-level container '{root}' (one instance shared by all callers)"))
